@@ -1,8 +1,129 @@
 import GceTcb.Base.Line
-/- Driver handler for stream `c10` (stub: replaced when the property's model lands). -/
+import GceTcb.Model.Rotate
+/- Driver handler for stream `c10` (fault-scripted key rotation). -/
 namespace GceTcb.Drive.C10
-open GceTcb
+open GceTcb GceTcb.CA
 
-def handle (_f : Fields) : String := "unimplemented"
+def insertSorted (x : String) : List String → List String
+  | [] => [x]
+  | y :: ys => if x = y then y :: ys else if x < y then x :: y :: ys else y :: insertSorted x ys
+
+/-- sorted, duplicates removed -/
+def sortU (l : List String) : List String := l.foldr insertSorted []
+
+def showCall : Call → String
+  | .kmCreate => "km.create"
+  | .kmDestroy k => "km.destroy." ++ k
+  | .caPsk => "ca.psk"
+  | .caPrk => "ca.prk"
+  | .caBundle => "ca.bundle"
+  | .caCert k => "ca.cert." ++ k
+  | .caFin => "ca.fin"
+  | .sgPub k => "sg.pub." ++ k
+  | .sgSign k => "sg.sign." ++ k
+  | .stR o => "st.r." ++ o
+  | .stE o => "st.e." ++ o
+  | .stW o => "st.w." ++ o
+  | .stWr o => "st.wr." ++ o
+  | .stC o => "st.c." ++ o
+
+def showFault : Fault → String
+  | .ok => ""
+  | .fail => "!"
+  | .crash => "#"
+
+def showLog (l : List (Call × Fault)) : String :=
+  ",".intercalate (l.map fun p => showCall p.1 ++ showFault p.2)
+
+def liveNames (s : St) : List String :=
+  (sortU (s.keys.map (·.1))).filter fun n => (lookup s.keys n).isSome
+
+def subjectOf (s : St) (c : Cert) : String :=
+  match (liveNames s).find? (fun n => lookup s.keys n == some c.pub) with
+  | some n => n
+  | none => "-"
+
+def b2s (b : Bool) : String := if b then "1" else "0"
+
+def showState (cfg : Cfg) (s : St) : String :=
+  let live := ",".intercalate (liveNames s)
+  match cfg.ca with
+  | .memca =>
+    let names := sortU (s.memCerts.map (·.1))
+    let root := lookup s.memCerts s.memRoot
+    let chains := fun (c : Cert) => match root with
+      | some r => decide (c.sigBy = r.pub)
+      | none => false
+    let ents := names.map fun n => n ++ ">" ++ n
+    let objs := names.filterMap fun n => (lookup s.memCerts n).map fun c =>
+      n ++ "~d~" ++ subjectOf s c ++ "~" ++ b2s (chains c)
+    s!"live={live} man={s.memRoot}|{s.memPrimary}|{",".intercalate ents} objs={",".intercalate objs}"
+  | .gcsca =>
+    let man := match lookup s.store manifestName with
+      | none => "none"
+      | some (.manifest m) =>
+        m.root ++ "|" ++ m.signing ++ "|" ++ ",".intercalate (m.entries.map fun (e : String × String) => e.1 ++ ">" ++ e.2)
+      | some _ => "bad"
+    let root := match lookup s.store cfg.rootPath with
+      | some (.pem r) => some r
+      | _ => none
+    let chains := fun (c : Cert) => match root with
+      | some r => decide (c.sigBy = r.pub)
+      | none => false
+    let paths := (sortU (s.store.map (·.1))).filter (· ≠ manifestName)
+    let objs := paths.filterMap fun p => (lookup s.store p).map fun o =>
+      match o with
+      | .der c => p ++ "~d~" ++ subjectOf s c ++ "~" ++ b2s (chains c)
+      | .pem c => p ++ "~p~" ++ subjectOf s c ++ "~" ++ b2s (chains c)
+      | .manifest _ => p ++ "~x~-~0"
+    s!"live={live} man={man} objs={",".intercalate objs}"
+
+def parseScript (str : String) : Nat → Fault :=
+  let items : List (Nat × Fault) := if str == "-" || str == "" then [] else
+    (str.splitOn ",").filterMap fun t =>
+      let cs := t.toList
+      match cs.getLast? with
+      | some 'f' => (String.ofList cs.dropLast).toNat?.map fun n => (n, Fault.fail)
+      | some 'c' => (String.ofList cs.dropLast).toNat?.map fun n => (n, Fault.crash)
+      | _ => none
+  fun n => match items.find? (fun p => p.1 == n) with
+    | some p => p.2
+    | none => .ok
+
+def mkCfg (f : Fields) (overwrite : Bool) : Cfg :=
+  let pk := (f.get "pk").splitOn ","
+  { ca := if f.get "ca" == "memca" then .memca else .gcsca
+    km := if f.get "km" == "localkm" then .localkm else .memkm
+    rootPath := "root.crt"
+    certDir := "certs/"
+    bump := bumpName
+    pubPre := (pk.getD 0 "0").toNat?.getD 0
+    pubPost := (pk.getD 1 "0").toNat?.getD 0
+    overwrite := overwrite }
+
+/-- bootstrapped state followed by `hist` fault-free rotations (serials 3, 4, …), reloaded -/
+def initialState (cfg : Cfg) (hist : Nat) : St :=
+  let cfg0 := { cfg with overwrite := false, km := .memkm }
+  let s0 := (bootstrap cfg0 "root" "sk" ⟨"rootcn", 1⟩ ⟨"sigcn", 2⟩ false noFault St.init).state.reload
+  (List.range hist).foldl (fun s i => (rotateKey cfg0 ⟨"sig", 3 + i⟩ noFault s).state.reload) s0
+
+def showRes : Res String → String
+  | .ok k _ => "ok." ++ k
+  | .err _ => "err"
+  | .crash _ => "crash"
+
+def handle (f : Fields) : String :=
+  match f.get "op" with
+  | "rot" | "rotold" =>
+    let cfg := mkCfg f (f.bool "ow")
+    let s0 := initialState cfg (f.nat "hist")
+    let run := if f.get "op" == "rot" then rotateKey else rotateKeyOld
+    let r1 := run cfg ⟨f.get "cn", f.nat "serial"⟩ (parseScript (f.get "script")) s0
+    let s1 := r1.state
+    let s1' := s1.reload
+    let r2 := run { cfg with overwrite := true } ⟨f.get "cn", f.nat "rserial"⟩ noFault s1'
+    let s2 := r2.state
+    s!"log={showLog s1.log} res={showRes r1} {showState cfg s1'} rlog={showLog s2.log} retry={showRes r2} {showState cfg s2.reload}"
+  | _ => "bad-op"
 
 end GceTcb.Drive.C10
